@@ -1,3 +1,4 @@
+import TinodeVerif.Model.Base
 /-
 Model of server/store/types/types.go:524-835 (AccessMode).
 Go `uint` bit sets are `BitVec 32`: only &, |, &^ and comparisons with constants are used,
@@ -5,7 +6,6 @@ none of which can overflow, so the width is immaterial as long as it holds ModeI
 Go `[]byte`/`string` arguments are `List Char`; the correspondence harness feeds ASCII only
 (any non-ASCII byte falls in the same `default:` branch as any other unknown character).
 -/
-deriving instance DecidableEq for Except
 
 namespace Tinode.Acs
 
